@@ -160,6 +160,8 @@ def judgeCase (_k : Nat) (lines : List String) : Verdict := Id.run do
             if a ≠ b then some (s!"C38.{p.op}.{f}-differs", s!"op{idx}:{p.line.take 90}:client={(a.getD "<absent>").take 60},direct={(b.getD "<absent>").take 60}")
             else none
       for s in sigs do
+        -- (the missing PutObject version id is reported by the clean histories; in a witness it is noise)
+        if mode == "witness" && s.1 == "C38.put.vid-differs" then continue
         let sig := if mode == "witness" then "C38.w-" ++ wname ++ (s.1.drop 3).toString else s.1
         if !vio.any (·.1 == sig) then vio := vio ++ [(sig, s.2)]
     idx := idx + 1
@@ -188,5 +190,5 @@ def predictedSignatures : List String :=
           if c == kindOfStatus d then none else some s!"C38.{op}.err.{kindOfStatus d}-to-{c}").eraseDups
 
 def main (args : List String) : IO Unit :=
-  if args == ["--signatures"] then predictedSignatures.forM' IO.println
+  if args == ["--signatures"] then predictedSignatures.forM (fun s => IO.println s) *> pure ()
   else runDriver judgeCase
